@@ -19,7 +19,7 @@ use vhost::{VhostBackend, VhostUserMemoryRegionInfo};
 use vhost_user_backend::bitmap::BitmapMmapRegion;
 use vhost_user_backend::{VhostUserBackend, VhostUserDaemon, VringT};
 use virtio_queue::QueueT;
-use vm_memory::{Bytes, GuestAddress, GuestAddressSpace, GuestMemory, GuestMemoryAtomic, GuestMemoryMmap};
+use vm_memory::{Bytes, GuestAddress, GuestAddressSpace, GuestMemory, GuestMemoryAtomic, GuestMemoryMmap, GuestMemoryRegion};
 use vmm_sys_util::epoll::EventSet;
 use vmm_sys_util::event::{new_event_consumer_and_notifier, EventConsumer, EventFlag, EventNotifier};
 
@@ -94,6 +94,10 @@ pub struct BState {
     pub results: Vec<CmdResult>,
     pub custom_handled: u64,
     pub fail_update_memory: bool,
+    /// (start, len) of the regions seen from inside the latest `update_memory` callback
+    pub regions_at_last_update: Option<Vec<(u64, u64)>>,
+    /// guest addresses written from inside `update_memory` (BCfg::touch_in_update)
+    pub touched_in_update: Vec<u64>,
     pub config_fail: bool,
     /// report a hold point from inside get_config ("inside the handler" position of C16)
     pub hold_in_get_config: bool,
@@ -107,6 +111,9 @@ pub struct BCfg {
     pub protocol_features: u64,
     pub masks: Vec<u64>,
     pub exit_events: bool,
+    /// the backend writes one byte into every region from inside `update_memory` (a device that
+    /// touches its memory as soon as it is told about it)
+    pub touch_in_update: bool,
 }
 
 impl Default for BCfg {
@@ -127,6 +134,7 @@ impl Default for BCfg {
                 .bits(),
             masks: vec![0xffff_ffff],
             exit_events: true,
+            touch_in_update: false,
         }
     }
 }
@@ -211,7 +219,20 @@ impl<V: VringT<Mem> + Send + Sync + 'static> VhostUserBackend for RB<V> {
     }
     fn update_memory(&self, mem: Mem) -> io::Result<()> {
         let n = mem.memory().num_regions() as u64;
+        // what the memory looks like *while* the backend is being notified
+        let at_callback: Vec<(u64, u64)> = mem.memory().iter().map(|r| (r.start_addr().0, r.len())).collect();
+        let mut touched = Vec::new();
+        if self.cfg.touch_in_update {
+            for (start, len) in &at_callback {
+                let gpa = start + 16.min(len - 1);
+                if mem.memory().write_slice(&[0xa5u8], GuestAddress(gpa)).is_ok() {
+                    touched.push(gpa);
+                }
+            }
+        }
         let mut g = self.st.lock().unwrap();
+        g.touched_in_update.extend(touched);
+        g.regions_at_last_update = Some(at_callback);
         g.callbacks.push(("update_memory".into(), vec![n]));
         if g.fail_update_memory {
             return Err(io::Error::other("scripted"));
